@@ -555,6 +555,8 @@ def run(ctx):
     # the scan and is issued again (premises shared with C10/C11)
     from . import finder as _finder
     from .confimm import rule_config_as_loaded
+    from . import gram as _gram
+    _gram.recognition_premises(ctx, ctx.grammar, "C01-G")
     _finder.rule_macro_filter(ctx, facts, "C01-R7")
     _finder.rule_filter_before_entry(ctx, facts, "C01-R7")
     rule_config_as_loaded(ctx, facts, "C01-R7")
